@@ -36,24 +36,75 @@ func DefaultComparePreRelease[T1, T2 constraint.ParserInput](a T1, b T2) int {
 
 func comparePreRelease[T1, T2 constraint.ParserInput](shorter T1, longer T2) int {
 	s, l := string(shorter), string(longer)
-	// compare bytes, not runes: offsets in both strings must stay the same even for invalid (non-ASCII) pre-releases
-	for i := 0; i < len(s); i++ {
-		if s[i] != l[i] {
-			return comparePreReleaseSuffix(s[i:], l[i:])
+	for {
+		// compare dot separated identifiers from left to right
+		si, sRest, sMore := strings.Cut(s, ".")
+		li, lRest, lMore := strings.Cut(l, ".")
+		if c := compareIdentifiers(si, li); c != 0 {
+			return c
 		}
+		if !sMore || !lMore {
+			// a larger set of identifiers has a higher precedence than a smaller set
+			if sMore == lMore {
+				return 0
+			}
+			if lMore {
+				return 1
+			}
+			return -1
+		}
+		s, l = sRest, lRest
 	}
-	if len(s) == len(l) {
-		return 0
-	}
-	return 1
 }
 
-func comparePreReleaseSuffix(shorter string, longer string) int {
-	if digitsOrEmpty.MatchString(shorter) && digitsOrEmpty.MatchString(longer) {
-		shorter = strings.TrimLeft(shorter, "0")
-		longer = strings.TrimLeft(longer, "0")
+// compareIdentifiers returns 1 if a has lower precedence than b, -1 if a has higher precedence than b and 0 otherwise.
+func compareIdentifiers(a, b string) int {
+	if a == b {
+		return 0
 	}
-	return -strings.Compare(shorter, longer)
+	aNum, bNum := isDigits(a), isDigits(b)
+	switch {
+	case aNum && bNum:
+		return compareNumbers(a, b)
+	case aNum:
+		// numeric identifiers always have lower precedence than non-numeric identifiers
+		return 1
+	case bNum:
+		return -1
+	}
+	// skip common prefix, but keep whole trailing numbers
+	i := 0
+	for i < len(a) && i < len(b) && a[i] == b[i] {
+		i++
+	}
+	for i > 0 && a[i-1] >= '0' && a[i-1] <= '9' {
+		i--
+	}
+	return comparePreReleaseSuffix(a[i:], b[i:])
+}
+
+func comparePreReleaseSuffix(a string, b string) int {
+	if isDigits(a) && isDigits(b) {
+		return compareNumbers(a, b)
+	}
+	return -strings.Compare(a, b)
+}
+
+// compareNumbers compares decimal numbers of any length.
+func compareNumbers(a, b string) int {
+	a = strings.TrimLeft(a, "0")
+	b = strings.TrimLeft(b, "0")
+	if la, lb := len(a), len(b); la != lb {
+		if la < lb {
+			return 1
+		}
+		return -1
+	}
+	return -strings.Compare(a, b)
+}
+
+func isDigits(s string) bool {
+	return s != "" && digitsOrEmpty.MatchString(s)
 }
 
 // CompareVersion compares passed versions.
